@@ -493,6 +493,8 @@ pub struct EvOracles {
     pub convergence: bool,
     /// C09: per-frame confirmed-tick oracle per session, no traffic for closed connections.
     pub c09: bool,
+    /// C16: adoption of pre-spawned entities, one client entity per server entity.
+    pub c16: bool,
 }
 
 #[derive(Clone, Debug, Serialize)]
@@ -1193,6 +1195,9 @@ impl EvCell {
         self.scan_client_wire(x, c)?;
         self.check_client_observations(x, c)?;
         let view = x.sim.client_view(c);
+        if self.oracles.c16 && x.sim.clients[c].conn.is_some() {
+            crate::props::c16::check_sim(self.property, &mut x.sim, c, &view)?;
+        }
         if self.oracles.c09 && x.sim.clients[c].conn.is_some() {
             x.sim.check_confirmed(c, &view).map_err(|v| self.own(v))?;
             if self.cfg.track {
